@@ -68,6 +68,7 @@ def assumed10 (s : State) : Move → Bool
   | .bind ns name _ node _ fault _ => fault == 0 && singleKeys s && bindSameNode s ns name node
   | .deliver _ fault _ => fault == 0 && singleKeys s
   | .resync _ fault _ => fault == 0 && singleKeys s
+  | .resyncRec _ fault _ => fault == 0 && singleKeys s
   | .apiRelease _ _ fault _ => fault == 0 && singleKeys s
   | _ => true
 
